@@ -353,7 +353,7 @@ def size(r, sc):
         if k in ("Padding", "PaddedString") and n < 0:
             raise ModelGap("negative length")
         return n
-    if k in ("Enum", "EnumClass", "FlagsEnum", "FlagsEnumClass", "Mapping", "Hex", "HexDump", "OneOf", "NoneOf", "ExprValidator", "RawCopy", "Lazy"):
+    if k in ("Enum", "EnumClass", "EnumMixed", "FlagsEnum", "FlagsEnumClass", "Mapping", "Hex", "HexDump", "OneOf", "NoneOf", "ExprValidator", "RawCopy", "Lazy"):
         return size(a[0], sc)
     if k in ("Default", "Rebuild"):
         return size(a[0], sc)
@@ -494,7 +494,7 @@ def enc(r, v, sc):
         return str_encode(v, a[0]) + bytes(unit_of(a[0]))
     if k == "GreedyString":
         return str_encode(v, a[0])
-    if k in ("Enum", "EnumClass"):
+    if k in ("Enum", "EnumClass", "EnumMixed"):
         labels = enum_labels(r)
         if isinstance(v, int):
             return enc(a[0], int(v), sc)
@@ -833,6 +833,9 @@ def enum_labels(r):
     if r[0] == "EnumClass":
         import enum
         pairs = [(e.name, int(e.value)) for e in enum.IntEnum("E", pairs)]
+    if r[0] == "EnumMixed":              # labels from an enum class, then keyword labels
+        import enum
+        pairs = [(e.name, int(e.value)) for e in enum.IntEnum("E", pairs)] + [(n, v) for n, v in r[3]]
     if r[0] == "FlagsEnumClass":
         import enum
         pairs = [(e.name, int(e.value)) for e in enum.IntFlag("E", pairs)]
@@ -955,7 +958,7 @@ def dec(r, buf, pos, end, sc):
             data += b
     if k == "GreedyString":
         return str_decode(buf[pos:end], a[0]), end
-    if k in ("Enum", "EnumClass"):
+    if k in ("Enum", "EnumClass", "EnumMixed"):
         iv, pos = dec(a[0], buf, pos, end, sc)
         rev = {}
         for n, v in enum_labels(r).items():
